@@ -226,6 +226,8 @@ where
             // Swap the Delete and Insert
             (DiffTag::Insert, DiffTag::Delete) | (DiffTag::Delete, DiffTag::Insert) => {
                 ops.swap(pointer - 1, pointer);
+                #[cfg(similar_verif)]
+                crate::verif_hooks::on_swap(ops, pointer - 1);
                 pointer -= 1;
             }
             // Merge the two ranges
@@ -333,6 +335,8 @@ where
             // Swap the Delete and Insert
             (DiffTag::Insert, DiffTag::Delete) | (DiffTag::Delete, DiffTag::Insert) => {
                 ops.swap(pointer, pointer + 1);
+                #[cfg(similar_verif)]
+                crate::verif_hooks::on_swap(ops, pointer);
                 pointer += 1;
             }
             // Merge the two ranges
